@@ -54,6 +54,9 @@ func cmdFaultOps(args []string) int {
 	defer out.Close()
 	mon := f.Extra["monitors"]
 	prof := HistProfile{MaxOps: 6, Backdate: true}
+	if v, ok := f.Extra["scripts"]; ok { // creates whose script sets metadata: a retried write re-runs the script on the same request value
+		fmt.Sscan(v, &prof.ScriptsPct)
+	}
 	run := func(feat Feat, ops []Op, target Op, fs faultSpec) (*HistRun, bool) {
 		hr := newHistRun(feat, false)
 		for _, o := range ops {
